@@ -180,10 +180,27 @@ Definition w_o2 : list (row RNum) :=
     @mkRow RNum 0 1 5 0 1 ; @mkRow RNum 0 2 5 0 2 ; @mkRow RNum 0 3 5 0 3 ;
     @mkRow RNum 0 2 4 (-1) 1 ].
 
+Lemma w_o2_climb : @subset RNum Climb w_o2 = [ @mkRow RNum 0 1 7 3 9 ; @mkRow RNum 0 2 7 2 9 ].
+Proof. unfold w_o2. rcompute. reflexivity. Qed.
+Lemma w_o2_cruise : @subset RNum Cruise w_o2 = [ @mkRow RNum 0 1 5 0 1 ; @mkRow RNum 0 2 5 0 2 ; @mkRow RNum 0 3 5 0 3 ].
+Proof. unfold w_o2. rcompute. reflexivity. Qed.
+Lemma w_o2_descent : @subset RNum Descent w_o2 = [ @mkRow RNum 0 2 4 (-1) 1 ].
+Proof. unfold w_o2. rcompute. reflexivity. Qed.
+Lemma w_o2_masses : @masses RNum w_o2 = [1; 2; 3].
+Proof. unfold w_o2. rcompute. reflexivity. Qed.
+Lemma w_o2_required : @required_masses RNum w_o2 = 3%nat.
+Proof. unfold w_o2. rcompute. reflexivity. Qed.
+
 Lemma wrong_mass_count_loads_then_rejects :
   @load RNum swF w_o2 = None /\
   @evaluate RNum swF (fun x => x) w_o2 Climb 0 (@MVal RNum 1) = @Rej RNum EMassCount.
-Proof. unfold w_o2, swF. split; rcompute; reflexivity. Qed.
+Proof.
+  split.
+  - unfold load. apply validate_none. unfold checks.
+    rewrite w_o2_masses, w_o2_required, w_o2_climb, w_o2_cruise, w_o2_descent. unfold swF.
+    repeat split; rcompute; reflexivity.
+  - unfold evaluate. rewrite w_o2_climb. unfold swF. rcompute. reflexivity.
+Qed.
 
 (* ---- FC06e: binary64.  FLM_f is units.FL_TO_METERS = 100 * 0.3048 as a double (link: equal to the regenerated one).
         Level 230 expressed in metres and divided back is one ulp above 230, so with 230 as the top tabulated level
@@ -193,12 +210,21 @@ Definition w_f230 : list (row FNum) :=
   [ @mkRow FNum 0 1 5 0 1 ; @mkRow FNum 0 2 5 0 2 ; @mkRow FNum 0 3 5 0 3 ;
     @mkRow FNum 230 1 6 0 4 ; @mkRow FNum 230 2 6 0 5 ; @mkRow FNum 230 3 6 0 8 ]%float.
 
+(* boolean observers, so that vm_compute only ever evaluates closed terms of type bool *)
+Definition is_none {A} (o : option A) : bool := match o with None => true | Some _ => false end.
+Definition is_rej_bounds0 (r : result FNum) : bool := match r with Rej (EBounds O) => true | _ => false end.
+Definition is_ok_with (r : result FNum) (t rc ff : float) : bool :=
+  match r with Ok a b c => PrimFloat.eqb a t && PrimFloat.eqb b rc && PrimFloat.eqb c ff | Rej _ => false end.
+Definition has_row (l : list (row FNum)) (fl m t rc ff : float) : bool :=
+  existsb (fun x : row FNum => PrimFloat.eqb (r_fl x) fl && PrimFloat.eqb (r_mass x) m && PrimFloat.eqb (r_tas x) t
+                    && PrimFloat.eqb (r_rocd x) rc && PrimFloat.eqb (r_ff x) ff) l.
+
 Lemma node_exact_in_metres_binary64_refuted :
-  @validate FNum swF (@subset FNum Cruise w_f230) = None /\
-  In (@mkRow FNum 230 2 6 0 5)%float (@subset FNum Cruise w_f230) /\
+  is_none (@validate FNum swF (@subset FNum Cruise w_f230)) = true /\
+  has_row (@subset FNum Cruise w_f230) 230 2 6 0 5 = true /\
   PrimFloat.ltb 230 (@alt_to_fl_div FNum FLM_f (PrimFloat.mul 230 FLM_f)) = true /\
-  @evaluate FNum swF (@alt_to_fl_div FNum FLM_f) w_f230 Cruise (PrimFloat.mul 230 FLM_f) (@MVal FNum 2%float)
-    = @Rej FNum (EBounds 0) /\
+  is_rej_bounds0 (@evaluate FNum swF (@alt_to_fl_div FNum FLM_f) w_f230 Cruise (PrimFloat.mul 230 FLM_f)
+                            (@MVal FNum 2%float)) = true /\
   (* where the level is handed over directly the tabulated values come back bit for bit *)
-  @evaluate FNum swF (fun x => x) w_f230 Cruise 230%float (@MVal FNum 2%float) = @Ok FNum 6%float 0%float 5%float.
-Proof. vm_compute. repeat split; auto 10. Qed.
+  is_ok_with (@evaluate FNum swF (fun x => x) w_f230 Cruise 230%float (@MVal FNum 2%float)) 6 0 5 = true.
+Proof. repeat split; vm_compute; reflexivity. Qed.
